@@ -14,6 +14,7 @@ prop=$(python3 -c "import json,sys;print(json.load(open('$SD/meta.json'))['prope
 checks=("$@"); [ ${#checks[@]} -eq 0 ] && checks=("$prop")
 ( cd "$S" && patch -p1 -s < "$SD/patch.diff" ) || { echo "$name APPLY-FAILED"; rm -rf "$S"; exit 3; }
 ( cd "$S" && go build ./... ) >/dev/null 2>&1 && echo "$name build=ok" || { echo "$name build=FAIL"; rm -rf "$S"; exit 3; }
+if [ -n "${SEED_FAST:-}" ]; then echo "$name suite/demo skipped (SEED_FAST: confirmed in an earlier run)"; else
 if ( cd "$S" && go test -vet=off -count=1 ./... ) >/tmp/seedrun-$name.test 2>&1; then echo "$name suite=green"; else echo "$name suite=RED (not a valid seed)"; fi
 # demo: must fail on the changed tree and pass on the unchanged one
 demo_run() { # tree
@@ -28,6 +29,7 @@ P="/dev/shm/yq-seed-$name-pristine"; rm -rf "$P"; rsync -a --exclude .git /repo/
 demo_run "$P"; d0=$?
 rm -rf "$P"
 echo "$name demo: changed_tree_rc=$d1 unchanged_tree_rc=$d0"
+fi
 for c in "${checks[@]}"; do
   out=$(cd "$HERE" && VERIF_EVIDENCE_DIR="/tmp/seed-evidence/$name" VERIF_REPO="$S" VERIF_NORACE="${SEED_NORACE:-1}" ./check "$c" "${SEED_TIER:-quick}" 2>&1); rc=$?
   nv=$(printf '%s\n' "$out" | grep -c '^VIOLATION')
